@@ -234,3 +234,79 @@ Definition k_stream (i o st op cr okN : N) (doc logm : list N) : list N :=
 (* k_cmd: the whole-binary view of a document command: sink decision + exit status *)
 Definition k_sink (i o : N) : N :=
   match eff_out (arg_of_N i) (arg_of_N o) with ADash => 0%N | _ => 1%N end.
+
+(* ---- commands with SEVERAL inputs (info, validate, form list, images list, permissions list):
+   pkg/cli/document_exec.go ListInfoFiles / listInfoFilesJSON (no "-" among the inputs) and the
+   stdin-aware loop of ListInfo (some input is "-").  What reading one input gives is an input
+   of the model: its text lines and its JSON entry, or an error. ---- *)
+Inductive in_res := IOk (lines : list (list N)) (entry : list N) | IErr.
+
+Definition in_ok (r : in_res) : bool := match r with IOk _ _ => true | IErr => false end.
+
+(* text mode, both variants (document_exec.go:563-577 and :624-652): a blank line between
+   inputs, the lines of every readable input, errors collected (a single input: nil, err) *)
+Fixpoint text_fold (first : bool) (ins : list in_res) : list (list N) * bool :=
+  match ins with
+  | [] => ([], true)
+  | r :: rest =>
+    let sep := if first then [] else [[]] in
+    let (ss, ok) := text_fold false rest in
+    match r with
+    | IOk ls _ => (sep ++ ls ++ ss, ok)
+    | IErr => (sep ++ ss, false)
+    end
+  end.
+
+Definition list_info_text (ins : list in_res) : list (list N) * bool :=
+  match ins with
+  | [IErr] => ([], false)
+  | _ => text_fold true ins
+  end.
+
+(* listInfoFilesJSON: the first error aborts — return nil, err *)
+Fixpoint json_entries_strict (ins : list in_res) : option (list (list N)) :=
+  match ins with
+  | [] => Some []
+  | IErr :: _ => None
+  | IOk _ e :: rest => match json_entries_strict rest with Some es => Some (e :: es) | None => None end
+  end.
+
+(* ListInfo's loop in JSON mode: errors are collected, entries of readable inputs kept *)
+Fixpoint json_collect (ins : list in_res) : list (list N) * bool :=
+  match ins with
+  | [] => ([], true)
+  | IErr :: rest => let (es, _) := json_collect rest in (es, false)
+  | IOk _ e :: rest => let (es, ok) := json_collect rest in (e :: es, ok)
+  end.
+
+(* file variant: ListInfoFiles.  render = jsonInfoOutput (one JSON value from the entries) *)
+Definition list_info_files (json : bool) (render : list (list N) -> list N) (ins : list in_res)
+  : list (list N) * bool :=
+  if json then
+    match json_entries_strict ins with
+    | Some es => ([render es], true)
+    | None => ([], false)
+    end
+  else list_info_text ins.
+
+(* stream variant: ListInfo with "-" among the inputs (document_exec.go:620-658):
+   err := errors.Join(errs...); if err != nil { return ss, err }; if json { return jsonInfoOutput(infos) } *)
+Definition list_info_stream (json : bool) (render : list (list N) -> list N) (ins : list in_res)
+  : list (list N) * bool :=
+  if json then
+    let (es, ok) := json_collect ins in
+    if ok then ([render es], true) else ([], false)
+  else list_info_text ins.
+
+(* the process: lines printed by runCommandWithOutput (also when the command failed), exit status *)
+Definition run_multi (quiet : bool) (res : list (list N) * bool) : list ev * Z :=
+  (print_lines quiet (fst res), exit_status (snd res)).
+
+(* wire format: inputs as 1 (readable) / 0 (unreadable); render = number of entries.
+   Reply: [exit status; number of lines printed; entries in the JSON value] *)
+Definition k_multi (stream json : bool) (codes : list N) : list N :=
+  let ins := map (fun c => if N.eqb c 0 then IErr else IOk [[c]] [c]) codes in
+  let render := fun es : list (list N) => [N.of_nat (List.length es)] in
+  let res := if stream then list_info_stream json render ins else list_info_files json render ins in
+  [Z.to_N (exit_status (snd res)); N.of_nat (List.length (fst res));
+   match fst res with [[n]] => if json then n else 0%N | _ => 0%N end].
